@@ -4,3 +4,4 @@ import SamVerif.Gen.Crc
 import SamVerif.Spec.Crc
 import SamVerif.Props.C12
 import SamVerif.Props.C10
+import SamVerif.Props.C18
